@@ -214,7 +214,7 @@ void    scinstal (const char *str, bool sc_is_exclusive)
 		scextend ();
 
 	if (addsym(str, NULL, lastsc, sctbl, START_COND_HASH_SIZE)) {
-		format_pinpoint_message (
+		format_synerr (
 			_("start condition %s declared twice"), str);
 	}
 	scname[lastsc] = sctbl[hashfunct(str, START_COND_HASH_SIZE)]->name;
